@@ -916,10 +916,34 @@ def gen_history(rng, cid, length=None):
             for c in crit_list(rng, crits):
                 args += ["--criteria", c]
             add(args + ["--force"], False)
-        elif r < 0.94:
+        elif r < 0.92:
             add(["fmt"], False)
-        else:
+        elif r < 0.94:
             add(["regenerate", "unpublished"], fresh)
+        elif r < 0.965 and third:
+            # trust a publisher crates.io knows for one of the crates (explicit window or the defaults)
+            pkg = rng.choice(third)
+            pubs = sorted({v["by"] for v in registry["packages"].get(pkg, []) if v.get("by")})
+            if pubs:
+                args = ["trust", pkg, f"user{rng.choice(pubs)}"]
+                for c in crit_list(rng, crits):
+                    args += ["--criteria", c]
+                if rng.random() < 0.5:
+                    args += ["--start-date", "2021-06-01", "--end-date", rng.choice(["2023-06-01", "2023-12-31"])]
+                add(args, fresh)
+            else:
+                add(["check"], fresh)
+        elif r < 0.98 and third:
+            pkg = rng.choice(third)
+            req = rng.choice(["=9.9.9", "<1.0.0", "=" + rng.choice(versions[pkg]).split("@")[0], "*"])
+            args = ["record-violation", pkg, req]
+            for c in crit_list(rng, crits):
+                args += ["--criteria", c]
+            add(args + ["--who", "tester", "--force"], False)
+        elif r < 0.99:
+            add(["renew", "--expiring"], False)
+        else:
+            add(["regenerate", "audit-as-crates-io"], fresh)
     case = {"id": cid, "kind": "history", "graph": base["graph"], "store_struct": store,
             "store": render_store(store), "steps": steps}
     return case
